@@ -237,6 +237,10 @@ def bank_instr_task(task):
         fixed = {'c': 14, 'n': rnd.choice(regs), 'm': newmode}
         if name.startswith('ldm') or name.startswith('stm'):
             fixed['r'] = rnd.getrandbits(15) | (0x6000 if rnd.random() < 0.6 else 0)
+        if name.startswith('srs') and rnd.random() < 0.3:
+            # the banked SP that SRS uses and writes back sits at the very top / bottom of the address space
+            bank = {16: 'usr', 31: 'usr', 17: 'fiq', 18: 'irq', 19: 'svc', 22: 'mon', 23: 'abt', 27: 'und', 26: 'hyp'}[newmode]
+            st['R']['SP' + bank] = C.limbs(rnd.choice([0xFFFFFFF8, 0xFFFFFFFC, 0, 4]))
         if name == 'msr_c':
             fixed['n'] = rnd.choice([0, 3, 7])
             st['R']['R%dusr' % fixed['n']] = C.limbs((rnd.getrandbits(2) << 6) | newmode)
